@@ -66,6 +66,16 @@ trino_dialect.update_keywords_set_from_multiline_string(
     "reserved_keywords", trino_reserved_keywords
 )
 
+# Keywords which grammar elements of this dialect (including inherited
+# ones) refer to, but which are in neither keyword set.
+trino_dialect.sets("unreserved_keywords").update(
+    [
+        "BINDING",
+        "LANGUAGE",
+        "RETURNS",
+    ]
+)
+
 trino_dialect.insert_lexer_matchers(
     # Regexp Replace w/ Lambda: https://trino.io/docs/422/functions/regexp.html
     [
